@@ -156,7 +156,7 @@ def _assemble_sym(env, lines, want_listing, fs, bytes_of=None):
         env.ensure("C17:input-lines-unmodified", same, ("C17",), internal="frame:input list modified")
 
 
-class _Alarm(Exception):
+class _Alarm(BaseException):     # not an Exception: the code under test has broad `except Exception` handlers
     pass
 
 
@@ -267,6 +267,10 @@ def _assemble_native(env, lines, want_listing, fs, bytes_of=None, session=None):
                 r.status = "escape"
                 r.exc_class = type(e).__name__
                 r.exc_msg = "get_statements: %s" % e
+        return r
+    except _Alarm:
+        r.status = "hang"
+        r.exc_msg = "no result after 3 s of CPU on the real code"
         return r
     finally:
         signal.setitimer(signal.ITIMER_REAL, 0)
